@@ -7,7 +7,7 @@ Model of `fibre_ioc` (/repo/ioc/src/{core,container,local_container,global}.rs).
   keyed by `Slot = (container id, key)`; container `0` is the global one, the others are instance or
   local containers (their `get` code is line-for-line the same: guard, lookup, `get_or_init`/factory).
 * `Provider`: `add_instance` stores a `Singleton` whose cell is pre-filled and whose factory is never
-  called (`instance id`); `add_singleton*` stores an empty `OnceCell` plus the factory; `add_transient*`
+  called (`inst id`); `add_singleton*` stores an empty `OnceCell` plus the factory; `add_transient*`
   stores only the factory.  A factory is a *script*: the list of services it resolves (each from some
   container, with `resolve_from!` = required = panics on `None`, or `maybe_resolve_from!` = optional),
   after which it produces a fresh instance id from the program-wide counter `next`.  `runs` counts the
@@ -47,7 +47,7 @@ deriving DecidableEq, Repr
 def Dep.slot (d : Dep) : Slot := ⟨d.c, d.k⟩
 
 inductive Provider where
-  | instance (id : Nat)
+  | inst (id : Nat)
   | singleton (script : List Dep) (cell : Option Nat) (runs : Nat)
   | transient (script : List Dep) (runs : Nat)
 deriving DecidableEq, Repr
@@ -125,7 +125,7 @@ def resolveF : Nat → World → Nat → Key → World × Outcome
       let w1 := w.push k
       match w1.regs.get ⟨c, k⟩ with
       | none => (w1.pop k, .none)
-      | some (.instance id) => (w1.pop k, .some id)
+      | some (.inst id) => (w1.pop k, .some id)
       | some (.singleton _ (some id) _) => (w1.pop k, .some id)
       | some (.singleton script none runs) =>
         match runScript (resolveF fuel) w1 script with
@@ -165,11 +165,11 @@ def World.register (w : World) (s : Slot) (p : Provider) : World := { w with reg
 
 /-- `add_instance*`: the caller supplies the instance; its id is reserved in the counter -/
 def World.regInstance (w : World) (s : Slot) (id : Nat) : World :=
-  { w with regs := w.regs.set s (.instance id), next := max w.next (id + 1) }
+  { w with regs := w.regs.set s (.inst id), next := max w.next (id + 1) }
 
 /-- store provider `p` at `s` the way the matching `add_*` call does -/
 def World.install (w : World) (s : Slot) : Provider → World
-  | .instance id => w.regInstance s id
+  | .inst id => w.regInstance s id
   | p => w.register s p
 
 def applyOp (w : World) : Op → World × Option Outcome
@@ -186,7 +186,7 @@ def runOps (w : World) : List Op → World
 def World.count (w : World) (s : Slot) : Option Nat :=
   match w.regs.get s with
   | none => none
-  | some (.instance _) => some 0
+  | some (.inst _) => some 0
   | some (.singleton _ _ r) => some r
   | some (.transient _ r) => some r
 
